@@ -64,7 +64,7 @@ def _direct(ctx, rep, n):
 
 def _scratch(ctx, rep, n, label='scratch'):
     """From-scratch worlds: random configuration reached by a history, rebuilt fresh, compared with the spec."""
-    for pname in ('basic', 'three-fits-decimal', 'fleet', 'projheavy'):
+    for pname in ('basic', 'three-fits-decimal', 'fleet', 'fleetheavy', 'projheavy'):
         p = dict(F.PARAM_SETS[pname], nsteps=25)
         base = ctx.sub_rnd(label, pname).randrange(10 ** 9)
         for k in range(n):
@@ -106,7 +106,7 @@ def correspondence(ctx):
     rep = ctx.report
     rep.rules.append(RULE)
     _direct(ctx, rep, ctx.n(6000, 150000))
-    _scratch(ctx, rep, ctx.n(40, 800))
+    _scratch(ctx, rep, ctx.n(32, 640))
 
 
 def _ref_eval(case):
